@@ -8,13 +8,13 @@ namespace XotModel
 open HTree
 
 /-- `h` is the handle of `k`, which sits between `l` and `r` in the child list at `path`. -/
-structure Loc (roots : List HTree) (h : Nat) (path : List Frame) (l : List HTree) (k : HTree)
+structure Loc (roots : List HTree) (h : Nat) (path : List ZipFrame) (l : List HTree) (k : HTree)
     (r : List HTree) : Prop where
   eq : roots = plug path (l ++ k :: r)
   hk : k.handle = h
 
 /-- What distinct handles say about a located handle. -/
-structure Loc.Fresh (h : Nat) (path : List Frame) (l : List HTree) (k : HTree) (r : List HTree) : Prop where
+structure Loc.Fresh (h : Nat) (path : List ZipFrame) (l : List HTree) (k : HTree) (r : List HTree) : Prop where
   path : h ∉ pathHandles path
   left : h ∉ handlesList l
   kids : h ∉ handlesList k.kids
@@ -40,7 +40,7 @@ theorem Loc.fresh {roots h path l k r} (lc : Loc roots h path l k r) (nd : (hand
   · intro hc; exact h7.1 (by simp [hc])
   · intro hc; exact h7.1 (by simp [hc])
 
-theorem mem_of_findList?_some {h : Nat} {ks : List HTree} {t : HTree} (hs : findList? h ks = some t) :
+theorem fi_mem_of_findList?_some {h : Nat} {ks : List HTree} {t : HTree} (hs : findList? h ks = some t) :
     h ∈ handlesList ks := by
   apply Classical.byContradiction
   intro hn
@@ -53,7 +53,7 @@ theorem mem_allHandles_of_isLive {f : Forest} {h : Nat} (hl : f.isLive h = true)
   unfold isLive get? at hl
   cases hs : findList? h f.roots with
   | none => rw [hs] at hl; cases hl
-  | some t => exact mem_of_findList?_some hs
+  | some t => exact fi_mem_of_findList?_some hs
 
 /-- A live handle can be located. -/
 theorem exists_loc {f : Forest} {h : Nat} (hm : h ∈ f.allHandles) :
@@ -62,7 +62,7 @@ theorem exists_loc {f : Forest} {h : Nat} (hm : h ∈ f.allHandles) :
   exact ⟨path, l, k, r, ⟨he, hk⟩⟩
 
 section located
-variable {f : Forest} {h : Nat} {path : List Frame} {l : List HTree} {k : HTree} {r : List HTree}
+variable {f : Forest} {h : Nat} {path : List ZipFrame} {l : List HTree} {k : HTree} {r : List HTree}
 
 theorem get?_of_loc (lc : Loc f.roots h path l k r) (nd : f.allHandles.Nodup) : f.get? h = some k := by
   have fr := lc.fresh nd
@@ -78,7 +78,7 @@ theorem isRoot_of_loc_nil (lc : Loc f.roots h [] l k r) : f.isRoot h = true := b
   rw [lc.eq]
   simp [lc.hk]
 
-theorem isRoot_of_loc_cons {fr : Frame} {rest : List Frame} (lc : Loc f.roots h (fr :: rest) l k r)
+theorem isRoot_of_loc_cons {fr : ZipFrame} {rest : List ZipFrame} (lc : Loc f.roots h (fr :: rest) l k r)
     (nd : f.allHandles.Nodup) : f.isRoot h = false := by
   have hf := lc.fresh nd
   unfold isRoot
@@ -86,7 +86,7 @@ theorem isRoot_of_loc_cons {fr : Frame} {rest : List Frame} (lc : Loc f.roots h 
   intro x hx
   simpa using root_handle_ne_of_plug_cons hf.path x hx
 
-theorem ctx?_of_loc_snoc {fr : Frame} {rest : List Frame} (lc : Loc f.roots h (rest ++ [fr]) l k r)
+theorem ctx?_of_loc_snoc {fr : ZipFrame} {rest : List ZipFrame} (lc : Loc f.roots h (rest ++ [fr]) l k r)
     (nd : f.allHandles.Nodup) : f.ctx? h = some ⟨fr.h, l, k, r⟩ := by
   have hf := lc.fresh nd
   unfold ctx?
@@ -99,12 +99,12 @@ theorem ctx?_of_loc_nil (lc : Loc f.roots h [] l k r) (nd : f.allHandles.Nodup) 
     have := nd; unfold allHandles at this; rw [lc.eq] at this; simpa using this
   unfold ctx?
   rw [lc.eq, plug_nil, findSome?_ctxBelow_append_of_not_mem h l _ hf.left, List.findSome?_cons,
-    ctxBelow_of_not_mem h k hf.kids]
+    fi_ctxBelow_of_not_mem h k hf.kids]
   apply findSome?_ctxBelow_none
   intro x hx hc
   apply hf.right
   obtain ⟨a, b, rfl⟩ := List.append_of_mem hx
-  simp only [fi_handlesList_append, handlesList_cons, List.mem_append]
+  simp only [fi_handlesList_append, fi_handlesList_cons, List.mem_append]
   refine Or.inr (Or.inl ?_)
   rw [fi_handles_eq]; exact List.mem_cons_of_mem _ hc
 
@@ -117,7 +117,7 @@ theorem ancestors_of_loc (lc : Loc f.roots h path l k r) (nd : f.allHandles.Nodu
 
 /-! #### The primitives at a located handle -/
 
-theorem map_replaceBelow_of_loc (g : HTree → List HTree) {fr : Frame} {rest : List Frame}
+theorem map_replaceBelow_of_loc (g : HTree → List HTree) {fr : ZipFrame} {rest : List ZipFrame}
     (lc : Loc f.roots h (fr :: rest) l k r) (nd : f.allHandles.Nodup) :
     f.roots.map (replaceBelow h g) = plug (fr :: rest) (l ++ g k ++ r) := by
   have hf := lc.fresh nd
@@ -148,14 +148,14 @@ theorem cut_of_loc (lc : Loc f.roots h path l k r) (nd : f.allHandles.Nodup) :
     simp only [isRoot_of_loc_cons lc nd, map_replaceBelow_of_loc _ lc nd]
     simp
 
-theorem placeAfter_of_loc (t : HTree) {fr : Frame} {rest : List Frame}
+theorem placeAfter_of_loc (t : HTree) {fr : ZipFrame} {rest : List ZipFrame}
     (lc : Loc f.roots h (fr :: rest) l k r) (nd : f.allHandles.Nodup) :
     f.placeAfter h t = { f with roots := plug (fr :: rest) (l ++ k :: t :: r) } := by
   unfold placeAfter
   rw [map_replaceBelow_of_loc _ lc nd]
   simp
 
-theorem placeBefore_of_loc (t : HTree) {fr : Frame} {rest : List Frame}
+theorem placeBefore_of_loc (t : HTree) {fr : ZipFrame} {rest : List ZipFrame}
     (lc : Loc f.roots h (fr :: rest) l k r) (nd : f.allHandles.Nodup) :
     f.placeBefore h t = { f with roots := plug (fr :: rest) (l ++ t :: k :: r) } := by
   unfold placeBefore
@@ -184,7 +184,7 @@ theorem setValue_of_loc (v : Value) (lc : Loc f.roots h path l k r) (nd : f.allH
   rw [map_mapAt_of_loc _ lc nd]
 
 /-- `spliceOut` of a non-root node: the children take its place. -/
-theorem spliceOut_of_loc_cons {fr : Frame} {rest : List Frame}
+theorem spliceOut_of_loc_cons {fr : ZipFrame} {rest : List ZipFrame}
     (lc : Loc f.roots h (fr :: rest) l k r) (nd : f.allHandles.Nodup) :
     f.spliceOut h = { f with roots := plug (fr :: rest) (l ++ k.kids ++ r) } := by
   unfold spliceOut
@@ -266,7 +266,7 @@ theorem cut_perm {f f' : Forest} {h : Nat} {t : HTree} (nd : f.allHandles.Nodup)
   rw [lc.eq]
   refine ((handlesList_plug_perm path (l ++ r)).append_right _).trans
     (List.Perm.trans ?_ (handlesList_plug_perm path (l ++ k :: r)).symm)
-  simp only [fi_handlesList_append, handlesList_cons, List.append_assoc]
+  simp only [fi_handlesList_append, fi_handlesList_cons, List.append_assoc]
   exact List.Perm.append_left _ (List.Perm.append_left _ List.perm_append_comm)
 
 theorem cut_none {f f' : Forest} {h : Nat} (hc : f.cut h = (f', none)) : f' = f := by
@@ -290,7 +290,7 @@ theorem placeAfter_perm {f : Forest} {ref : Nat} (t : HTree) (nd : f.allHandles.
     rw [lc.eq]
     refine (handlesList_plug_perm _ _).trans
       (List.Perm.trans ?_ ((handlesList_plug_perm _ _).symm.append_right _))
-    simp only [fi_handlesList_append, handlesList_cons, List.append_assoc]
+    simp only [fi_handlesList_append, fi_handlesList_cons, List.append_assoc]
     refine List.Perm.append_left _ (List.Perm.append_left _ (List.Perm.append_left _ ?_))
     exact List.perm_append_comm
 
@@ -307,7 +307,7 @@ theorem placeBefore_perm {f : Forest} {ref : Nat} (t : HTree) (nd : f.allHandles
     rw [lc.eq]
     refine (handlesList_plug_perm _ _).trans
       (List.Perm.trans ?_ ((handlesList_plug_perm _ _).symm.append_right _))
-    simp only [fi_handlesList_append, handlesList_cons, List.append_assoc]
+    simp only [fi_handlesList_append, fi_handlesList_cons, List.append_assoc]
     refine List.Perm.append_left _ (List.Perm.append_left _ ?_)
     refine List.perm_append_comm.trans ?_
     simp only [List.append_assoc]
@@ -327,8 +327,8 @@ theorem placeLast_perm {f : Forest} {p : Nat} (t : HTree) (nd : f.allHandles.Nod
   rw [lc.eq]
   refine (handlesList_plug_perm _ _).trans
     (List.Perm.trans ?_ ((handlesList_plug_perm _ _).symm.append_right _))
-  simp only [fi_handlesList_append, handlesList_cons, List.append_assoc, handles_setKids, fi_handles_eq k,
-    handlesList_nil, List.append_nil, List.cons_append]
+  simp only [fi_handlesList_append, fi_handlesList_cons, List.append_assoc, handles_setKids, fi_handles_eq k,
+    fi_handlesList_nil, List.append_nil, List.cons_append]
   refine List.Perm.append_left _ (List.Perm.append_left _ (List.Perm.cons _ (List.Perm.append_left _ ?_)))
   exact List.perm_append_comm
 
@@ -342,7 +342,7 @@ theorem placeFirst_perm {f : Forest} {p : Nat} (t : HTree) (nd : f.allHandles.No
   rw [lc.eq]
   refine (handlesList_plug_perm _ _).trans
     (List.Perm.trans ?_ ((handlesList_plug_perm _ _).symm.append_right _))
-  simp only [fi_handlesList_append, handlesList_cons, List.append_assoc, handles_setKids, fi_handles_eq k,
+  simp only [fi_handlesList_append, fi_handlesList_cons, List.append_assoc, handles_setKids, fi_handles_eq k,
     List.cons_append]
   refine List.Perm.append_left _ (List.Perm.append_left _ (List.Perm.cons _ ?_))
   refine List.perm_append_comm.trans ?_
@@ -361,7 +361,7 @@ theorem spliceOut_perm {f : Forest} {h : Nat} (nd : f.allHandles.Nodup) (hl : f.
     rw [lc.eq]
     refine ((handlesList_plug_perm _ _).append_right _).trans
       (List.Perm.trans ?_ (handlesList_plug_perm _ _).symm)
-    simp only [fi_handlesList_append, handlesList_cons, List.append_assoc, fi_handles_eq k, lc.hk,
+    simp only [fi_handlesList_append, fi_handlesList_cons, List.append_assoc, fi_handles_eq k, lc.hk,
       List.cons_append]
     refine List.Perm.append_left _ (List.Perm.append_left _ ?_)
     rw [← List.append_assoc]
